@@ -56,10 +56,22 @@ func (i *IFunc) String() string {
 func (i *IFunc) Type() types.Type {
 	// Cache type if not present.
 	if i.Typ == nil {
-		typ, ok := i.Resolver.Type().(*types.PointerType)
+		// The resolver of an IFunc with content type T has type `T* ()*`; the
+		// IFunc itself has type `T*` (in the address space of the resolver).
+		resolverType, ok := i.Resolver.Type().(*types.PointerType)
 		if !ok {
 			panic(fmt.Errorf("invalid resolver type of %q; expected *types.PointerType, got %T", i.Ident(), i.Resolver.Type()))
 		}
+		sig, ok := resolverType.ElemType.(*types.FuncType)
+		if !ok {
+			panic(fmt.Errorf("invalid resolver type of %q; expected pointer to function type, got %v", i.Ident(), resolverType))
+		}
+		retType, ok := sig.RetType.(*types.PointerType)
+		if !ok {
+			panic(fmt.Errorf("invalid resolver type of %q; expected resolver function to return pointer type, got %v", i.Ident(), sig.RetType))
+		}
+		typ := types.NewPointer(retType.ElemType)
+		typ.AddrSpace = resolverType.AddrSpace
 		i.Typ = typ
 	}
 	return i.Typ
